@@ -4,6 +4,7 @@ use ckb_types::{
     packed::LightClientMessage,
     prelude::*,
     utilities::merkle_mountain_range::VerifiableHeader,
+    U256,
 };
 
 use super::{Status, StatusCode};
@@ -38,7 +39,7 @@ pub(crate) trait HeaderUtils {
 
 impl HeaderUtils for HeaderView {
     fn is_parent_of(&self, child: &Self) -> bool {
-        self.number() + 1 == child.number()
+        self.number().checked_add(1) == Some(child.number())
             && (self.is_genesis() || child.epoch().is_successor_of(self.epoch()))
             && self.hash() == child.parent_hash()
     }
@@ -53,6 +54,15 @@ pub(crate) trait VerifiableHeaderPatch {
 
 impl VerifiableHeaderPatch for VerifiableHeader {
     fn patched_is_valid(&self, mmr_activated_epoch_number: EpochNumber) -> bool {
+        // The total difficulty of the header is the sum of these two values, which are sent by
+        // the peer: the sum has to be representable.
+        let parent_total_difficulty: U256 = self.parent_chain_root().total_difficulty().unpack();
+        if parent_total_difficulty
+            .checked_add(&self.header().difficulty())
+            .is_none()
+        {
+            return false;
+        }
         let mmr_activated_epoch = EpochNumberWithFraction::new(mmr_activated_epoch_number, 0, 1);
         let has_chain_root = self.header().epoch() > mmr_activated_epoch;
         if has_chain_root {
